@@ -115,7 +115,7 @@ def run(env) -> Result:
         for i, k in enumerate(seq):
             fields += alpha[k](f"f{i}")
         trees.append(("struct", fields))
-    for _ in range(250 if tier == "quick" else 4000):  # thorough size bounded by memory: the library never frees structure-defining cstruct objects
+    for _ in range(250 if tier == "quick" else 8000):
         trees.append(defs.Gen(rnd, max_depth=rnd.choice([1, 2])).struct())
     nplans = [0]
     ncompiles = [0]
@@ -308,7 +308,7 @@ def run(env) -> Result:
     # readers), parsed from stream positions 0 and from aligned positions behind a prefix; the two readers must agree on value,
     # consumed bytes and recorded sizes wherever both return (the same definition, the same bytes, only the reader differs)
     mrnd = mkrng(env["seed"], "c03-mixed")
-    for _ in range(180 if tier == "quick" else 2500):
+    for _ in range(180 if tier == "quick" else 5000):
         g = defs.Gen(mrnd, max_depth=mrnd.choice([1, 2, 2, 3]))
         pick = mrnd.random()
         if pick < 0.3:
